@@ -14,6 +14,9 @@
 (*            integer (`exact`) is used;                                               *)
 (*            `prev` (a run of the same data under a wider affinity / without load)    *)
 (*            must be bit-identical too;                                               *)
+(*            phase "alias": the SAME object was passed on both sides, x.dot_f64(&x)   *)
+(*            (logged as y = x): same demands, and `two`, the two-object call          *)
+(*            x.dot_f64(&x.clone()), must be bit-identical (also for general data);    *)
 (*   pardot_f (general data) r1 = r2 = r3 bit for bit (same configuration), equal to   *)
 (*            the sequential product and to a double-double reference up to            *)
 (*            reassociation: at most 8 units of n * eps * sum|x_i y_i|.                *)
@@ -33,7 +36,8 @@ RECURSIVE DotFrom(_, _, _)
 DotFrom(x, y, k) == IF k > Len(x) THEN 0 ELSE x[k] * y[k] + DotFrom(x, y, k + 1)
 Dot(x, y) == DotFrom(x, y, 1)
 
-Repeatable(e) == e.r1 = e.r2 /\ e.r2 = e.r3
+\* (aliased calls on exact data are run once: their repetition is the two-object call `two`)
+Repeatable(e) == Has(e, "r2") => (e.r1 = e.r2 /\ e.r2 = e.r3)
 WellFormed(e) == e.nt >= 1 /\ e.len >= 0
 ExactValue(e) == IF Has(e, "x")
                    THEN /\ Len(e.x) = e.len /\ Len(e.y) = e.len
@@ -43,8 +47,8 @@ ExactValue(e) == IF Has(e, "x")
                    ELSE e.ri = e.exact
 Explained(e) ==
   CASE e.op = "pardot" -> /\ ~e.panic /\ Repeatable(e) /\ e.r1 = e.d /\ e.ri = e.di /\ ExactValue(e) /\ WellFormed(e)
-                          /\ (Has(e, "prev") => e.prev = e.r1)
-    [] e.op = "pardot_f" -> ~e.panic /\ Repeatable(e) /\ e.units <= 8 /\ e.uref <= 8 /\ WellFormed(e)
+                          /\ (Has(e, "prev") => e.prev = e.r1) /\ (Has(e, "two") => e.two = e.r1)
+    [] e.op = "pardot_f" -> ~e.panic /\ Repeatable(e) /\ e.units <= 8 /\ e.uref <= 8 /\ WellFormed(e) /\ (Has(e, "two") => e.two = e.r1)
     [] OTHER -> FALSE
 
 Init == l = 1 /\ TLCSet(1, 0)
